@@ -171,7 +171,7 @@ fn eval_builtin_incbin(
                 query.report,
                 query.args[2].span)?;
 
-            start + size
+            start.saturating_add(size)
         }
         else
         {
@@ -344,7 +344,7 @@ fn eval_builtin_incstr(
                 query.report,
                 query.args[2].span)?;
 
-            start + size
+            start.saturating_add(size)
         }
         else
         {
@@ -357,7 +357,7 @@ fn eval_builtin_incstr(
         return Ok(expr::Value::make_integer(util::BigInt::from_bytes_be(&[])));
     }
 
-    if (start * bits_per_char) >= bigint_size
+    if start >= bigint_size / bits_per_char
     {
         query.report.error_span(
             format!(
@@ -369,7 +369,7 @@ fn eval_builtin_incstr(
         return Err(());
     }
 
-    if (end * bits_per_char) > bigint_size
+    if end > bigint_size / bits_per_char
     {
         query.report.error_span(
             format!(
